@@ -521,6 +521,7 @@ func checkC16(w *World, r *Report) {
 	}
 	checkGlobalMemos(w, r, "R16.6", func(f *ssa.Function) bool { return codec[f] })
 	checkSaveWrites(w, r)
+	checkLoadedTreeIsParsed(w, r)
 }
 
 func (w *World) compareWire(r *Report, wfd, rfd *ast.FuncDecl, wo, ro []wireOp, helper bool, helperPairOK bool) bool {
@@ -1264,4 +1265,92 @@ func checkNameToFileInjective(w *World, r *Report) {
 		})
 	}
 	r.floor("file-system calls on paths derived from a template name", n, 4)
+}
+
+// checkLoadedTreeIsParsed — R16.9: the tree of a template loaded from its compiled form is
+// Parse(Source) (or the gob-decoded AST, which R16.4 shows can never decode).  Every value that
+// can be stored into the nodes field of the Template built by LoadFromCompiled is the first
+// result of Parser.Parse or the variable handed to the decoder.  A shortcut that builds the
+// tree another way ("static sources need no parser") has to reproduce the tokenizer — comments,
+// escapes, whitespace control — and renders differently from the source wherever it does not.
+func checkLoadedTreeIsParsed(w *World, r *Report) {
+	obj, _ := w.tryLookup("LoadFromCompiled").(*types.Func)
+	if obj == nil {
+		r.note("no LoadFromCompiled function: R16.9 not applicable")
+		return
+	}
+	fn := w.ssaFunc(obj)
+	parse := w.method("Parser", "Parse")
+	n := 0
+	instrsOf(fn, func(in ssa.Instruction) {
+		st, ok := in.(*ssa.Store)
+		if !ok {
+			return
+		}
+		if _, ok := fieldAddr(st.Addr, "Template", "nodes"); !ok {
+			return
+		}
+		n++
+		construct := "tree of the loaded template comes from Parse(Source)"
+		bad := ""
+		seen := map[ssa.Value]bool{}
+		var walk func(v ssa.Value, d int)
+		walk = func(v ssa.Value, d int) {
+			if seen[v] || d > 10 || bad != "" {
+				return
+			}
+			seen[v] = true
+			switch x := v.(type) {
+			case *ssa.Const:
+				return
+			case *ssa.Phi:
+				for _, e := range x.Edges {
+					walk(e, d+1)
+				}
+				return
+			case *ssa.Extract:
+				if c, ok := x.Tuple.(*ssa.Call); ok && calleeFunc(c) == parse && x.Index == 0 {
+					return
+				}
+				if c, ok := x.Tuple.(*ssa.Call); ok {
+					if g := c.Call.StaticCallee(); g != nil && w.inPkg(g) && len(g.Blocks) > 0 {
+						// a helper: its first results
+						instrsOf(g, func(gi ssa.Instruction) {
+							if ret, ok := gi.(*ssa.Return); ok {
+								res := retResults(ret)
+								if x.Index < len(res) {
+									walk(res[x.Index], d+1)
+								}
+							}
+						})
+						return
+					}
+				}
+			case *ssa.UnOp:
+				if al, ok := x.X.(*ssa.Alloc); ok && al.Referrers() != nil {
+					// the local the decoder fills, or a local assigned on several paths
+					for _, ref := range *al.Referrers() {
+						switch y := ref.(type) {
+						case *ssa.Store:
+							if y.Addr == ssa.Value(al) {
+								walk(y.Val, d+1)
+							}
+						}
+					}
+					return
+				}
+			case *ssa.MakeInterface:
+				walk(x.X, d+1)
+				return
+			}
+			bad = describe(v)
+		}
+		walk(st.Val, 0)
+		if bad == "" {
+			r.ok("R16.9", ssaName(fn), construct, w.posOf(in.Pos()), "every source of the stored tree is Parser.Parse (or the decoder's variable)", true)
+		} else {
+			r.bad("R16.9", ssaName(fn), construct, w.posOf(in.Pos()), "the tree stored in the loaded template can come from "+bad+", not from parsing the stored source: a compiled template then renders like its source only where that shortcut reproduces the tokenizer and parser exactly (comments, escaped delimiters, whitespace control)")
+		}
+	})
+	r.floor("stores of the loaded template's tree", n, 1)
 }
